@@ -143,3 +143,15 @@ Definition expected (c : params) (prior : option pmeta) (keys : list key) (nfs :
      (spec_bundle Ironwood h keys nfs start b).
 
 End Spec.
+
+(** ---- tracked nullifiers after a block (Nullifiers::update_with) ---- *)
+(** entry [(a, nf)] is tracked after the block iff it was tracked before and [nf] is not revealed
+    by a reported spend of that pool, or it is the nullifier of a wallet output found in that
+    pool; survivors keep their order and come first, new ones follow in block order *)
+Definition spent_in (p : pool) (txs : list wtx) (nf : N) : bool :=
+  existsb (fun wt => existsb (fun s => snd (fst s) =? nf) (wt_sp p wt)) txs.
+Definition new_entries (p : pool) (txs : list wtx) : list (N * N) :=
+  flat_map (fun wt => flat_map (fun w => match w_nf w with Some nf => [(w_acct w, nf)] | None => [] end)
+                               (wt_out p wt)) txs.
+Definition spec_tracked_after (p : pool) (nfs : nfset) (txs : list wtx) : list (N * N) :=
+  filter (fun e => negb (spent_in p txs (snd e))) (tracked p nfs) ++ new_entries p txs.
